@@ -188,9 +188,11 @@ class Grid:
             cells = expand_cells(rs.get("cells", []))
             for _ in range(rs.get("r", 1) or 1):
                 self.rows.append([c.copy() for c in cells])
-        # extend_rows: no first-row column initialisation is documented; the
-        # width is brought up to the widest row
+        # the width is brought up to the widest row; the first rows of a
+        # table declare its columns (at least one), as with append_row
         w = max([len(r) for r in self.rows] + [0])
+        if self.rows:
+            self._first_row_rule(w)
         self._upd_width(w)
 
     def set_values(self, x, y, matrix, style=None):
